@@ -1,45 +1,69 @@
-(* C20 — default_in_place produces the documented default state.
-   Pinned statements only; proofs in Proofs/EmplaceFacts.v and Proofs/EncFacts.v.
-   The documented default content is spec_value t IDefault of Proofs/EmplaceSpec.v: zero for
-   integers and floats, false for Bool, the #[default] variant for enums (which must be a unit
-   variant), every element / field default for arrays and structs, the empty state for FlatVec,
-   FlatString and FlexVec. *)
+(* C20 — default_in_place produces the documented default state for every type: zero / the default
+   variant for sized values, the empty state for FlatVec, FlatString and FlexVec, every field's
+   default for structs, the variant marked #[default] for enums.  The result validates, has the
+   smallest size() of the type and does not depend on the previous contents of the buffer.
+   Pinned statements only; proofs in Proofs/EmplaceFacts.v, Proofs/EncFacts.v and
+   Proofs/EmplaceUnsizedFacts.v. *)
 From Coq Require Import NArith List Bool.
 From Flatty.Model Require Import Base Ty Layout Validate View Emplace.
-From Flatty.Proofs Require Import EmplaceFacts EmplaceSpec EncFacts.
+From Flatty.Proofs Require Import EmplaceFacts EmplaceSpec EncFacts EmplaceUnsizedFacts.
 Open Scope N_scope.
 
-(* what the documented default content is, leaf by leaf *)
-Theorem c20_default_content :
-  (forall i, spec_value (TInt i) IDefault = Some (VInt 0)) /\
-  spec_value TBool IDefault = Some (VInt 0) /\
-  (forall tag n d, spec_value (TCLike tag n d) IDefault = Some (VInt d)) /\
+(* for every accepted definition that has a default (init_ok t IDefault: every enum inside has a
+   unit #[default] variant or is sized with default payloads), every padding policy, every aligned
+   address and every buffer that has room for the default state: default_in_place succeeds, keeps
+   the buffer length, the result validates, the accessors return exactly the default content and
+   size() is the reference extent of the default state *)
+Theorem c20_default_in_place_ok : forall t, wf t = true -> narrow_ty t = true -> init_ok t IDefault = true ->
+  forall pv a buf, aligned a (align t) = true -> extent t IDefault <= blen buf ->
+    let r := default_in_place pv t a buf in
+    snd r = Ok tt /\
+    blen (fst r) = blen buf /\
+    validate t a (fst r) = Ok tt /\
+    (exists v, view t (fst r) = Ok v /\ spec_value t IDefault = Some (strip v)) /\
+    size_m t (fst r) = Ok (extent t IDefault).
+Proof. exact default_in_place_ok. Qed.
+
+(* the default content: empty containers, the literal made of the fields' defaults, the #[default]
+   variant *)
+Theorem c20_default_states :
   (forall t l, spec_value (TVec t l) IDefault = Some (VCont 0 [])) /\
   (forall l, spec_value (TStr l) IDefault = Some (VCont 0 [])) /\
-  (forall t l, spec_value (TFlex t l) IDefault = Some (VNode 0 [])).
-Proof. repeat split; reflexivity. Qed.
+  (forall t l, spec_value (TFlex t l) IDefault = Some (VNode 0 [])) /\
+  (forall s fs, spec_value (TStruct s fs) IDefault =
+                spec_value (TStruct s fs) (ISeq (repeat IDefault (N.to_nat (flen fs))))) /\
+  (forall s tag d vs, spec_value (TEnum s tag d vs) IDefault = spec_value (TEnum s tag d vs) (IVar d [])).
+Proof. exact default_states. Qed.
 
-(* sized types: on every aligned buffer of at least SIZE bytes default_in_place succeeds, the
-   result validates and reads back the documented default content, whatever the buffer held *)
-Theorem c20_sized_default : forall t, wf t = true -> sized t = true -> init_ok t IDefault = true ->
-  forall pv a buf, aligned a (align t) = true -> ssize t <= blen buf ->
-    let r := default_in_place pv t a buf in
-    snd r = Ok tt /\ validate t a (fst r) = Ok tt /\
-    (exists v, view t (fst r) = Ok v /\ spec_value t IDefault = Some (strip v)) /\
-    blen (fst r) = blen buf /\ drop (ssize t) (fst r) = drop (ssize t) buf.
-Proof.
-  intros t Hw Hs Hi pv a buf Ha Hl r.
-  destruct (sized_emplace_ok t IDefault Hw Hs Hi pv a buf) as (_ & _ & H). exact (H Ha Hl).
-Qed.
+(* the default state has the smallest size() of the type: its extent is MIN_SIZE, so
+   default_in_place succeeds on every aligned buffer that passes the MIN_SIZE check *)
+Theorem c20_default_minimal_size : forall t, wf t = true -> init_ok t IDefault = true ->
+  extent t IDefault = min_size t.
+Proof. exact default_extent_min. Qed.
 
-(* ... and its non-padding bytes do not depend on the previous contents of the buffer *)
-Theorem c20_sized_independent : forall t m, wf t = true -> sized t = true -> enc_sized t IDefault = Some m ->
+(* the result does not depend on what the buffer held before, nor on what is stored in padding:
+   from two buffers of the same length the accessors return the same content and the same size() *)
+Theorem c20_default_independent_of_buffer : forall t, wf t = true -> narrow_ty t = true ->
+  init_ok t IDefault = true ->
+  forall pv1 pv2 a buf1 buf2, aligned a (align t) = true ->
+    blen buf1 = blen buf2 -> extent t IDefault <= blen buf1 ->
+    let r1 := default_in_place pv1 t a buf1 in
+    let r2 := default_in_place pv2 t a buf2 in
+    snd r1 = Ok tt /\ snd r2 = Ok tt /\
+    size_m t (fst r1) = size_m t (fst r2) /\
+    exists v1 v2, view t (fst r1) = Ok v1 /\ view t (fst r2) = Ok v2 /\ strip v1 = strip v2.
+Proof. exact default_independent_of_buffer. Qed.
+
+(* sized types, byte level: every non-padding byte of the default image lands in the result
+   whatever the buffer held *)
+Theorem c20_default_sized_bytes : forall t m, wf t = true -> sized t = true -> enc_sized t IDefault = Some m ->
   forall pv buf1 buf2, blen buf1 = blen buf2 -> ssize t <= blen buf1 ->
     forall j x, nth_error m j = Some (Some x) ->
       nth_error (overlay pv m buf1) j = nth_error (overlay pv m buf2) j.
 Proof. exact default_independent. Qed.
 
-(* FlatVec: the empty vector; only the length field is written; size() is the minimum *)
+(* the three containers: the bytes default_in_place writes (a zero length / offset field, nothing
+   else changes) *)
 Theorem c20_vec_default : forall pv t l a buf,
   wf (TVec t l) = true -> narrow l = true ->
   aligned a (align (TVec t l)) = true -> min_size (TVec t l) <= blen buf ->
@@ -52,7 +76,17 @@ Theorem c20_vec_default : forall pv t l a buf,
   size_m (TVec t l) (fst r) = Ok (ceil_mul (vec_data_offset t l) (align (TVec t l))).
 Proof. exact vec_default_ok. Qed.
 
-(* FlexVec: the empty chain (a zero slot); size() = OFFSET_SIZE *)
+Theorem c20_str_default : forall pv l a buf,
+  wf (TStr l) = true -> narrow l = true ->
+  aligned a (align (TStr l)) = true -> min_size (TStr l) <= blen buf ->
+  let r := default_in_place pv (TStr l) a buf in
+  snd r = Ok tt /\
+  fst r = to_bytes (ibe l) (isize l) 0 ++ drop (isize l) buf /\
+  validate (TStr l) a (fst r) = Ok tt /\
+  (exists cap, view (TStr l) (fst r) = Ok (VCont cap [])) /\
+  size_m (TStr l) (fst r) = Ok (ceil_mul (isize l) (ialign l)).
+Proof. exact str_default_ok. Qed.
+
 Theorem c20_flex_default : forall pv t l a buf,
   wf (TFlex t l) = true -> narrow l = true ->
   aligned a (align (TFlex t l)) = true -> min_size (TFlex t l) <= blen buf ->
@@ -64,20 +98,34 @@ Theorem c20_flex_default : forall pv t l a buf,
   size_m (TFlex t l) (fst r) = Ok (flex_offset_size t l).
 Proof. exact flex_default_ok. Qed.
 
-(* non-vacuity: enum { A, #[default] B, C(u32) } inside a struct with a Bool and an i16 *)
+(* non-vacuity: #[flat(sized = false)] struct { a: u16, e: enum { A(u8), #[default] B }, f: FlexVec<FlatString<u8>, u16> }
+   over two different garbage buffers and both padding policies: the same default content
+   (a = 0, e = B, f empty), size() = MIN_SIZE = 6 *)
 Example c20_example :
   let u8i := {| isize := 1; ialign := 1; ibe := false |} in
-  let i16 := TInt {| isize := 2; ialign := 2; ibe := false |} in
-  let u32 := TInt {| isize := 4; ialign := 4; ibe := false |} in
-  let e := TEnum true u8i 1 (VCons FNil (VCons FNil (VCons (FCons u32 FNil) VNil))) in
-  let t := TStruct true (FCons TBool (FCons i16 (FCons e FNil))) in
-  wf t = true /\ init_ok t IDefault = true /\
-  spec_value t IDefault = Some (VNode 0 [VInt 0; VInt 0; VNode 1 []]) /\
-  default_in_place None t 0 (repeat 170 12) = ([0; 170; 0; 0; 1; 170; 170; 170; 170; 170; 170; 170], Ok tt).
+  let u16i := {| isize := 2; ialign := 2; ibe := false |} in
+  let en := TEnum true u8i 1 (VCons (FCons (TInt u8i) FNil) (VCons FNil VNil)) in
+  let t := TStruct false (FCons (TInt u16i) (FCons en (FCons (TFlex (TStr u8i) u16i) FNil))) in
+  let g1 := [11;12;13;14;15;16;17;18;19] in
+  let g2 := [91;92;93;94;95;96;97;98;99] in
+  let content := VNode 0 [VInt 0; VNode 1 []; VNode 0 []] in
+  wf t = true /\ narrow_ty t = true /\ init_ok t IDefault = true /\
+  spec_value t IDefault = Some content /\ extent t IDefault = 6 /\ min_size t = 6 /\ align t = 2 /\
+  default_in_place None t 2 g1 = ([0;0; 1;14; 0;0; 17;18;19], Ok tt) /\
+  default_in_place (Some 255) t 2 g2 = ([0;0; 1;255; 0;0; 97;98;99], Ok tt) /\
+  validate t 2 (fst (default_in_place None t 2 g1)) = Ok tt /\
+  view t (fst (default_in_place None t 2 g1)) = Ok content /\
+  view t (fst (default_in_place (Some 255) t 2 g2)) = Ok content /\
+  size_m t (fst (default_in_place None t 2 g1)) = Ok 6 /\
+  default_in_place None t 3 g1 = (g1, Err BadAlign 0) /\
+  default_in_place None t 2 (take 5 g1) = (take 5 g1, Err InsufficientSize 0).
 Proof. vm_compute. repeat split; reflexivity. Qed.
 
-Print Assumptions c20_default_content.
-Print Assumptions c20_sized_default.
-Print Assumptions c20_sized_independent.
+Print Assumptions c20_default_in_place_ok.
+Print Assumptions c20_default_states.
+Print Assumptions c20_default_minimal_size.
+Print Assumptions c20_default_independent_of_buffer.
+Print Assumptions c20_default_sized_bytes.
 Print Assumptions c20_vec_default.
+Print Assumptions c20_str_default.
 Print Assumptions c20_flex_default.
